@@ -20,9 +20,9 @@ import typing as t
 VERIF = pathlib.Path(__file__).resolve().parent.parent
 REPO = pathlib.Path(os.environ.get("VERIF_REPO", "/repo"))
 SPEC = VERIF / "spec"
-RUN = VERIF / "run"
-EVIDENCE = VERIF / "evidence"
-REPLAYS = VERIF / "replays"
+RUN = pathlib.Path(os.environ.get("VERIF_RUN_DIR", VERIF / "run"))
+EVIDENCE = pathlib.Path(os.environ.get("VERIF_EVIDENCE_DIR", VERIF / "evidence"))
+REPLAYS = pathlib.Path(os.environ.get("VERIF_REPLAY_DIR", VERIF / "replays"))
 KNOWN = VERIF / "known_findings.json"
 
 
@@ -157,7 +157,7 @@ class Ctx:
             "wall_s": round(wall, 2),
             "violations": len(self.violations),
         }
-        EVIDENCE.mkdir(exist_ok=True)
+        EVIDENCE.mkdir(parents=True, exist_ok=True)
         (EVIDENCE / f"{self.pid}.json").write_text(json.dumps(ev, indent=1))
         for h in self.known_hits:
             print(f"KNOWN-FINDING: property={self.pid} {h['what']} [{h['key']}]")
